@@ -33,6 +33,8 @@ def ctor_defaults(cls):
 
 
 def check(prog, run):
+    from .c03 import prime_layouts
+    prime_layouts(prog)
     I = prog.I
     run.explanation = ("every facade method is abstractly interpreted, for each command-set table that offers its command, "
                        "with symbolic arguments (optional keyword arguments all omitted, then all supplied) over a stand-in "
@@ -152,7 +154,7 @@ def check_path(prog, run, fp, fspec, name, file, line):
                       % (fp.label(), p.raised.describe(), "omitted" if fp.kwmode == "none" else "supplied"),
                       file, line, "pyscsi.pyscsi.scsi:SCSI.%s" % name)
         return
-    cmd, byctor, dev = p.value
+    cmd, byctor, dev, pub = p.value
     if not isinstance(cmd, Instance):
         run.violation("returns-command", c, "returns %r, not the command object" % (cmd,), file, line)
         return
@@ -168,7 +170,7 @@ def check_path(prog, run, fp, fspec, name, file, line):
         run.violation("exactly-one-execute", c, "%d hand-overs to the binding on path %s" % (len(sg), fp.label()), file, line)
         return
     a = sg[0][1]["args"]
-    own = (cmd.attrs.get("_cdb"), cmd.attrs.get("_dataout"), cmd.attrs.get("_datain"))
+    own = (pub.get("cdb"), pub.get("dataout"), pub.get("datain"))
     if not (len(a) == 4 and a[1] is own[0] and a[2] is own[1] and a[3] is own[2]):
         run.violation("executes-returned-command", c,
                       "the command handed to the device is not the returned object (cdb/dataout/datain identity) on %s" % fp.label(),
@@ -187,7 +189,7 @@ def check_path(prog, run, fp, fspec, name, file, line):
             d = after[0]
             if d["data"] is not own[2]:
                 run.violation("decodes-device-buffer", c, "the decoder is given %r, not cmd.datain as the device left it" % (d["data"],), file, line)
-            elif cmd.attrs.get("_result") is not d["marker"]:
+            elif pub.get("result") is not d["marker"]:
                 run.violation("stores-result", c, "the decoded dictionary is not stored in cmd.result", file, line)
             elif any(k in fp.args and not same_arg(v, fp.args[k]) for k, v in d["kwargs"].items()):
                 k = [k for k, v in d["kwargs"].items() if k in fp.args and not same_arg(v, fp.args[k])][0]
@@ -204,6 +206,7 @@ def check_path(prog, run, fp, fspec, name, file, line):
     con.args = dict(ctor_defaults(cmd.cls))
     con.args.update(byctor)
     con.inst = cmd
+    con.pub = pub
     opk = [k for s, k, o in opcode_entries(prog, entry["names"]) if s == fp.setname]
     con.opkey = opk[0] if opk else None
     cdb = own[0]
@@ -281,13 +284,14 @@ def check_unmarshall_wrapper(prog, run):
         def t():
             inst = Instance(inq)
             din = Buf(cells=[0] * 8)
-            inst.attrs.update({"_datain": din, "_result": None})
+            set_pub(I, inst, "datain", din)
+            set_pub(I, inst, "result", None)
             I.call_function(f, [inst], {"evpd": 1}, None, _F())
             ev = [e for e in I.events if e["kind"] == "decode"]
-            res.append((inst, din, ev))
+            res.append((pub_attr(I, inst, "result"), din, ev))
         I.explore(t, max_paths=8)
-        inst, din, ev = res[0]
-        if len(ev) == 1 and ev[0]["data"] is din and inst.attrs.get("_result") is ev[0]["marker"] and ev[0]["kwargs"].get("evpd") == 1:
+        stored, din, ev = res[0]
+        if len(ev) == 1 and ev[0]["data"] is din and stored is ev[0]["marker"] and ev[0]["kwargs"].get("evpd") == 1:
             run.ok("unmarshall-wrapper", "SCSICommand.unmarshall")
         else:
             run.violation("unmarshall-wrapper", "SCSICommand.unmarshall",
@@ -298,7 +302,8 @@ def check_unmarshall_wrapper(prog, run):
 
         def t2():
             inst = Instance(tur)
-            inst.attrs.update({"_datain": Buf(cells=[]), "_result": None})
+            set_pub(I, inst, "datain", Buf(cells=[]))
+            set_pub(I, inst, "result", None)
             return I.call_function(f, [inst], {}, None, _F())
         ps = I.explore(t2, max_paths=8)
         if all((not p.returned) and p.raised.exc_class() is not None and p.raised.exc_class().name == "NotImplementedError" for p in ps):
